@@ -17,7 +17,10 @@ Inductive obs :=
 Inductive case :=
 | Case (v : variant) (flt_on : bool) (evs : list obs)
 | DM (v : variant) (a b : str) (impl : bool)
-| PM (v : variant) (target cpath : str) (impl : bool).
+| PM (v : variant) (target cpath : str) (impl : bool)
+(* EX: cookies.is_expired on an attribute set; expires = the outcome of the email.utils calls (computed by the
+   harness with the same library calls), impl None = it raised *)
+| EX (expires : option (option bool)) (max_age : option (option str)) (impl : option bool).
 
 Definition dict_eqb : list (str * option str) -> list (str * option str) -> bool :=
   list_eqb (pair_eqb bytes_eqb ostr_eqb).
@@ -39,4 +42,5 @@ Definition check_case (c : case) : bool :=
   | Case v flt_on evs => replay v flt_on [] evs
   | DM v a b impl => Bool.eqb (domain_match v a b) impl
   | PM v t cp impl => Bool.eqb (path_match v t cp) impl
+  | EX e m impl => option_eqb Bool.eqb (is_expired e m) impl
   end.
